@@ -99,7 +99,7 @@ func c06Gate(frames int, withOther bool) {
 			sym.Assert(authed, "unauthenticated-message-reached-service")
 			base = probe.count()
 		}
-		consumed := !(typ == net.Reply || typ == net.Error || typ == net.Event || typ == net.Cancelled)
+		consumed := typ == net.Call || typ == net.Post
 		if !wasClosed && !closedExpected && consumed && !authed && service != 0 {
 			// first unauthenticated frame to another service: error with its id, then the stream is closed
 			out := a.sentMessages()
@@ -111,7 +111,7 @@ func c06Gate(frames int, withOther bool) {
 			sym.Assert(a.isClosed(), "connection-not-closed-after-unauthenticated-frame")
 			closedExpected = true
 		}
-		if !wasClosed && !closedExpected && consumed && service == 0 && action == 8 && accepted {
+		if !wasClosed && !closedExpected && service == 0 && action == 8 && accepted {
 			authed = true
 		}
 	}
@@ -193,9 +193,11 @@ func C06Step() {
 	sym.Quiesce()
 
 	sym.Assert(probe.count() == 0, "unauthenticated-message-reached-service")
-	consumed := !(typ == net.Reply || typ == net.Error || typ == net.Event || typ == net.Cancelled)
+	// requests are calls and posts; what the server does with other message types addressed to a
+	// service is not constrained here beyond "no service reached, nothing authenticated, state untouched"
+	consumed := typ == net.Call || typ == net.Post
 	if ctx.Authenticated() {
-		sym.Assert(consumed && service == 0 && action == 8, "authenticated-without-authenticate-request")
+		sym.Assert(service == 0 && action == 8, "authenticated-without-authenticate-request")
 		sym.Assert(accepted, "authenticated-without-accepted-credentials")
 		sym.Reach("authenticated")
 	} else {
